@@ -242,6 +242,9 @@ func init() {
 			return tFalse
 		})
 	}
+	gasCfg := func(e *Engine, fn *ssa.Function, a []Value) Value { return e.zero(fn.Signature.Results().At(0).Type()) }
+	reg(sc+"KVGasConfig", gasCfg)
+	reg(sc+"TransientKVGasConfig", gasCfg)
 	reg(sc+"IsCheckTx", flag("checkTx"))
 	reg(sc+"IsReCheckTx", flag("reCheckTx"))
 	reg(sc+"EventManager", pure(func(e *Engine, c *CtxVal, a []Value) Value {
